@@ -22,7 +22,9 @@ CLAIMS = {
             "functions and methods; mutation sites enumerated from the grammar and the API table",
             "Decides, for every function and method of the package on all paths, that no in-place effect reaches a value "
             "aliasing a parameter (callee effects included), that every store to a signal's values is a fresh ndarray "
-            "(ownership, kind, npts pairing), that time = dt*arange(npts), and that no global state / RNG is used. "
+            "(ownership, kind, npts pairing), that time = dt*arange(npts) and is a fresh array on every read, and that no global "
+            "state / RNG is used; parameters a function itself treats as possibly array-valued are analysed both as scalars and "
+            "as arrays; out= is an in-place effect for every API row. "
             "Bit-for-bit equality of results follows from these plus NumPy determinism, which is assumed, not shown.",
             "Trusted: API table aliasing rows (np.array copies, np.asarray aliases, slicing views, overwrite_x only "
             "destroys complex input); records are real-valued; parameter role tables."),
@@ -30,7 +32,8 @@ CLAIMS = {
             "of both branches of the array function, the lazy object properties and the peak functions",
             "Derives for every record and dt, per branch of trap: velocity and displacement have the record's length, start at "
             "exactly zero, are linear in the record, of degree 1 resp. 2 in dt (so displacement integrates velocity), and are "
-            "built by trapezoid resp. rectangle quadrature only; the object properties are these results for (values, dt); "
+            "built by trapezoid resp. rectangle quadrature only; the object properties are these results for (values, dt); the explicit generator stores "
+            "the requested quadrature whatever the cache state on entry; integer-typed records are not truncated; "
             "PGA/PGV/PGD are even, non-negative, degree-1 absolute maxima of the right series. Increment identities hold to "
             "the extent the SciPy row for cumulative_trapezoid is right; bit-level values are not examined.",
             "Trusted: API rows cumulative_trapezoid/cumsum/zeros/slicing; absolute-maximum idiom table (sa/idioms.py)."),
@@ -39,24 +42,33 @@ CLAIMS = {
             "Derives for all records at once that each of the seven series has the record's length, is non-negative and "
             "non-decreasing, is even in the record, scales as alpha^2 or |alpha| and with the stated power of dt, and uses the "
             "stated quadrature on the stated source; for standardised CAV: length, non-negativity, monotonicity (accumulator "
-            "argument), the 0.025 g gate on the window's peak |a|. Final numerical values are not examined.",
+            "argument), the 0.025 g gate on the window's peak |a| over the window itself; every measure reads the "
+            "signal through its managed interface only (no snapshot attribute that no cache clears). Final numerical values are "
+            "not examined.",
             "Trusted: API rows; literal constants are compared with the numbers in the property statement (9.81, 0.025)."),
     "C10": ("abstract interpretation with comparison-site enumeration: strictness and orientation of every threshold "
             "comparison, equal-degree (scale-invariance) typing of both sides, first/last-of-same-index-array provenance",
             "Decides the structure of the masks for every record: both significant-duration comparisons are strict with start on "
             "the lower and end on the upper side (also through the deprecated forwarders), both sides have equal degree and even "
             "parity so the result is scale- and sign-invariant and proportional to dt, start/end are the first/last element of "
-            "one ascending index array in (start, end) order with a non-negative difference, the user measure is honoured. "
+            "one ascending index array in (start, end) order with a non-negative difference, the user measure is honoured, the "
+            "bracketed fallback is taken exactly on an empty exceedance set, and the record is read through the signal's managed "
+            "interface only (no snapshot attribute such as arias_intensity_series). "
             "Shift-by-k and widening corollaries are consequences for monotone measures (typed in C09), not checked directly.",
             "Trusted: API rows np.where/cumsum/cumulative_trapezoid; user-supplied measure modelled as an opaque positive-homogeneous value."),
-    "C01": ("syntax-tree rules + polynomial normal form of single expressions + def-use tags from abstract interpretation",
-            "Decides three structural clauses only: (i) the T=0 handling - the offset is 1 exactly when periods[0]==0, every "
-            "recurrence store is on rows s: so rows below keep their np.zeros value, and row 0 of the third series is minus the "
-            "record; (ii) on both branches the third series is -2*xi*w*v - w^2*u on rows s: with w = c/T, c = 2*pi to 1e-6, u/v "
-            "identified by return position; (iii) both wrappers forward (record, dt, periods, xi) by role and return the three "
-            "series in order. The headline clause - equality with the exact oscillator solution to rounding - is numerical and is "
-            "NOT decided (closed forms of the Nigam-Jennings matrices are not examined).",
-            "Trusted: none beyond the parser; not decided: compute_a_and_b's closed forms, tolerances."),
+    "C01": ("syntax-tree rules + polynomial normal form (with interpreted exp/sin/cos/sqrt applications) compared against a "
+            "reference table of the Nigam-Jennings closed forms + def-use tags from abstract interpretation",
+            "Decides the structure of the whole computation: (i) each of the eight entries of the propagator matrices returned by "
+            "compute_a_and_b equals the published closed form as a rational function of xi, w, dt, E=exp(-xi w dt), Q=sqrt(1-xi^2), "
+            "S/C=sin/cos(w Q dt) (temporaries inlined; sqrt(1-S^2) is |C|, not C); (ii) the recurrence is x[i+1] = A x[i] + "
+            "B (load[i], load[i+1]) for every step, with (A, B) = compute_a_and_b(xi, w, dt) by role and load = minus the record; "
+            "(iii) the T=0 handling (offset, row slices, row 0 = minus the record); (iv) the third series is -2*xi*w*v - w^2*u on both "
+            "branches with w = c/T, c = 2*pi to 1e-6; (v) both wrappers forward by role, the damping sentinel is the single default "
+            "literal. Together: the code IS the exact one-step solution for a piecewise-linear record. The rounding-error bound of the "
+            "statement (1e-6 + ...) is numerical and is NOT decided.",
+            "Trusted: the reference table NJ_REF in sa/props/c01.py (compared once by hand with the matrix exponential, outside any "
+            "check); algebraic independence of transcendentals of rationally independent arguments. Not decided: tolerances, the "
+            "effect of the truncated constant 6.2831853."),
     "C02": ("type inference (linearity domain, fixed point over the recurrence loop) + index-offset analysis of the loop + "
             "element-wise audit of every operation reached on period-indexed data",
             "Derives for all inputs: the three series are linear in the record (coefficients independent of it, zero initial "
@@ -100,10 +112,12 @@ CLAIMS = {
             "resampler follows the same rule; interp_to_approx_dt pairs returned values with returned dt. Floating-point "
             "quotients next to an integer and band-limited exactness are not decided.",
             "Trusted: API rows ceil/floor/int/interp; positivity of dt and target."),
-    "C16": ("format-string parsing of the writer, layout table extraction and writer/reader agreement, taint (dtype.names -> dt), "
+    "C16": ("abstract evaluation of the writer over a text-pattern domain (literals, formatted fields by role, repetitions; every "
+            "repetition unrolled twice), derived layout table and writer/reader agreement, taint (dtype.names -> dt), "
             "decision-table exhaustiveness by abstract interpretation",
-            "Decides: values written fixed-point with >= 6 decimals, dt >= 4, count as integer; layout label / '<npts> <dt>' / one "
-            "value per line agrees with the genfromtxt skip arithmetic and the line/token indices of the text reads; returned dt is "
+            "Decides: values written fixed-point with >= 6 decimals, dt >= 4, count as integer; the text written (whatever mix of "
+            "line lists, joins, loops and direct writes produces it) is label / '<npts> <dt>' / exactly one value per line with a "
+            "newline between any two consecutive writes, file opened truncating, and agrees with the genfromtxt skip arithmetic and the line/token indices of the text reads; returned dt is "
             "parsed from file text and never from sanitised column names; load_signal returns an object for its default and every "
             "literal it tests; load_sig/load_asig classes; m scales values only; label only on request; save_signal forwards by "
             "role. genfromtxt's own parsing is trusted.",
@@ -122,7 +136,8 @@ CLAIMS = {
             "direction expression (so their union is all reported peaks and their intersection empty), oriented so that a rising "
             "first segment puts maxima at odd positions; that direction is not an adjacent difference of the uncleaned input; "
             "reported indices are np.take(map, cleaned peaks) with map and cleaned array from the same cleaning call and the "
-            "detector inserting 0 and len-1 around strictly negative products of differences; the cycle counter has the record's "
+            "detector inserting 0 and len-1 around strictly negative products of differences, all arithmetic on a float copy "
+            "(fixed-width integer samples cannot wrap); the cycle counter has the record's "
             "length with the stated 0.5 / -0.25 / 0.0 constants and exhaustive option tables. Soundness and completeness of the "
             "detection over all rise/fall/flat patterns is NOT decided (needs enumeration: another technique family).",
             "Thin claim: necessary structural conditions only."),
@@ -159,7 +174,10 @@ CLAIMS = {
             "appends exactly one measure of that combination per iteration; in every Cluster loop the signal touched is selected "
             "by the loop variable (or is the master); on the path loop variable == master_index nothing is modified; the "
             "same-start correction is values - slave_average + master_average over one window with the master average taken from "
-            "master_index; time_match hands an ndarray back (via reset_values). The lag search's correctness is NOT decided.",
+            "master_index; time_match hands an ndarray back (via reset_values); no state is carried from one signal's iteration to the next; the "
+            "lag search has both directions over range(steps) with windows [i:i-steps] / [0:-steps] on different arrays, lag sign "
+            "by which array is padded, and is left early only on the master test or a test of the selected lag. That the residual "
+            "minimum is the true lag is NOT decided.",
             "Trusted: API rows; Cluster modelled by allocation-site summary objects."),
     "C19": ("degree/parity/sign/monotone typing over all option combinations, normal forms of the wave construction and sign "
             "tables, sibling summary equality, axis audit of reducing calls on the batch",
@@ -176,9 +194,12 @@ CLAIMS = {
             "values[ind+1:], default split the argmin; the rolling average keeps the length on all modes, is linear, uses one `steps` "
             "for lag and divisor, pads with replicated edge values on the right side(s); interp_left = searchsorted(x, x0, "
             "side='right') - 1 with scalar in/out; c_h_factor and sd_nzs have identical breakpoints and sd = c_h * T^2 per interval, "
-            "Z*N*R once, t_eff corner constants consistent; adjacent c_h branches agree within 1 % at breakpoints. interp2d and the NZS "
+            "Z*N*R once, t_eff corner constants consistent; adjacent c_h branches agree within 1 % at breakpoints; interp2d is "
+            "(1-s) f[lower] + s f[upper] with the stated weight, bracket and clamping and forms no row difference in an integer "
+            "table's own dtype; integer data is not truncated (one known finding, K1: calc_step_fn_vals_error's buffer). The NZS "
             "numbers themselves against the standard are NOT decided.",
-            "Trusted: API rows; NZS continuity folds only literals of the tree (no eqsig code is run)."),
+            "Trusted: API rows; NZS continuity folds only literals of the tree (no eqsig code is run). Known finding K1 in "
+            "known_findings.json (prints KNOWN-FINDING, exit 0)."),
 }
 NOT_YET = "check not built yet (build in progress, see DESIGN.md section 8)"
 
@@ -195,7 +216,8 @@ m = {
                                    "NumPy/SciPy API table"}],
     "checks": [],
     "notes": "All checks: ./check <id> [--tier quick|thorough]; exit 0 held / 1 VIOLATION / 2 ANALYSIS-ERROR "
-             "(inconclusive, never a pass). Self-test of the rules: python -m selftest.run (mutants + twins).",
+             "(inconclusive, never a pass). Self-test of the rules: python -m selftest.run (mutants, twins and the 80 seeded "
+             "changes kept under seeded/, see seeded/MATRIX.md). known_findings.json: one known finding (K1, C20), twelve fixed.",
     "not_applicable": [],
 }
 for i in ids:
